@@ -50,6 +50,19 @@ def Spec.step (s : Spec) : Op → Spec
     match s.staged with
     | some st => if discards st rpc rm then { s with staged := none } else s
     | none => s
+  | .accountSpend k w tx h =>
+    -- = the spend clause (multi-sig only) followed by the direct account update that closes the account
+    match lookup k s.vis.accounts with
+    | none => s
+    | some _ =>
+      match w with
+      | .unknown => s
+      | .expiry => { s with vis := C06.vis (C06.step (ofVis s.vis) (.updateAccount k (closeMods tx h))).1 }
+      | .multiSig =>
+        let s1 : Spec := match s.staged with
+          | some st => ⟨applyStaged st s.vis, none⟩
+          | none => s
+        { s1 with vis := C06.vis (C06.step (ofVis s1.vis) (.updateAccount k (closeMods tx h))).1 }
   | .addAccount k a => { s with vis := C06.vis (C06.step (ofVis s.vis) (.addAccount k a)).1 }
   | .submitOrder n o => { s with vis := C06.vis (C06.step (ofVis s.vis) (.submitOrder n o)).1 }
   | .updateOrder n m => { s with vis := C06.vis (C06.step (ofVis s.vis) (.updateOrder n m)).1 }
@@ -263,6 +276,54 @@ theorem refines_reconnect (db : DB) (h : Coh db) (rpc : Rpc) (rm : Bool) :
             · exact absurd ⟨ht, rfl⟩ hc
         simp [this, staged_of_hasPending hp]
 
+theorem refines_accountSpend (db : DB) (h : Coh db) (k : Key) (w : Witness) (tx ht : Nat) :
+    abs (step db (.accountSpend k w tx ht)).1 = (abs db).step (.accountSpend k w tx ht) ∧
+      Coh (step db (.accountSpend k w tx ht)).1 := by
+  simp only [step, handleAccountSpend, Spec.step, abs, vis]
+  cases hl : lookup k db.accounts with
+  | none => exact ⟨rfl, h⟩
+  | some a =>
+    cases w with
+    | unknown => exact ⟨rfl, h⟩
+    | expiry =>
+      have := refines_updateAccount db h k (closeMods tx ht)
+      simp only [step, Spec.step, abs, vis] at this
+      exact this
+    | multiSig =>
+      have h1 := refines_spend db h
+      simp only [step, Spec.step, abs, vis] at h1
+      obtain ⟨e1, c1⟩ := h1
+      cases hr : commit db (spendPendingClause db) with
+      | mk db1 res =>
+        rw [hr] at e1 c1
+        simp only [] at e1 c1
+        cases res with
+        | some e =>
+          -- the clause cannot fail on a coherent database
+          exfalso
+          rcases h.pend with hn | ⟨st, hs, hp⟩
+          · simp [spendPendingClause, pendingBatchSnapshot, hn.2.2.2, commit] at hr
+          · simp [spendPendingClause, pendingBatchSnapshot, hp.2.2.2, markBatchComplete_pending hp hs.2.2.2.1,
+              commit] at hr
+        | none =>
+          simp only []
+          have h2 := refines_updateAccount db1 c1 k (closeMods tx ht)
+          simp only [step, Spec.step, abs, vis] at h2
+          obtain ⟨e2, c2⟩ := h2
+          refine ⟨?_, c2⟩
+          rw [e2]
+          have ev : (⟨db1.accounts, db1.orders, db1.snaps, db1.index⟩ : Visible) = (match staged db with
+              | some st => (⟨applyStaged st ⟨db.accounts, db.orders, db.snaps, db.index⟩, none⟩ : Spec)
+              | none => ⟨⟨db.accounts, db.orders, db.snaps, db.index⟩, staged db⟩).vis := by
+            rw [← e1]
+          have es : staged db1 = (match staged db with
+              | some st => (⟨applyStaged st ⟨db.accounts, db.orders, db.snaps, db.index⟩, none⟩ : Spec)
+              | none => ⟨⟨db.accounts, db.orders, db.snaps, db.index⟩, staged db⟩).staged := by
+            rw [← e1]
+          cases hsd : staged db with
+          | none => simp only [hsd] at ev es ⊢; rw [← ev, es]
+          | some st => simp only [hsd] at ev es ⊢; rw [← ev, es]
+
 /-- every operation of the database model refines the specification and preserves coherence -/
 theorem step_refines (db : DB) (h : Coh db) (op : Op) :
     abs (step db op).1 = (abs db).step op ∧ Coh (step db op).1 := by
@@ -277,6 +338,7 @@ theorem step_refines (db : DB) (h : Coh db) (op : Op) :
   | updateAccount k m => exact refines_updateAccount db h k m
   | reopen => exact ⟨rfl, h⟩
   | spend => exact refines_spend db h
+  | accountSpend k w tx ht => exact refines_accountSpend db h k w tx ht
   | reconnect rpc rm => exact refines_reconnect db h rpc rm
 
 theorem run_refines (db : DB) (h : Coh db) (ops : List Op) :
